@@ -186,6 +186,13 @@ def xDBLMULgen (nbits : Nat) (bound : Option Nat) (k l : Nat) (P Q PQ : EcPoint 
 def xDBLMUL (nbits k l : Nat) (P Q PQ : EcPoint F) (curve : EcCurve F) : EcPoint F :=
   xDBLMULgen nbits none k l P Q PQ curve
 
+/-- `ec_biscalar_mul_bounded(res, curve, k, l, PQ, f)` (after fix 76cbdb3): a zero scalar is replaced by `2^f`, then
+    `xDBLMUL_bounded(…, f)`, whose main loop is applied for the indices `≤ f + 2 + (BITS - TORSION_PLUS_EVEN_POWER)` -/
+def biscalarMulBounded (nbits tpe f k l : Nat) (P Q PQ : EcPoint F) (curve : EcCurve F) : EcPoint F :=
+  let k' := if k % 2 ^ nbits = 0 then 2 ^ f else k
+  let l' := if l % 2 ^ nbits = 0 then 2 ^ f else l
+  xDBLMULgen nbits (some (f + 2 + (nbits - tpe))) k' l' P Q PQ curve
+
 /-! ### Jacobian double-scalar multiplication (DBLMUL, DBLMUL2, DBLMUL_generic) and op sequences -/
 
 /-- one iteration of the DBLMUL loops: `R ← 2R`, then add `P+Q`, `P` or `Q` according to the two bits -/
@@ -201,19 +208,24 @@ def jacDBLMUL (nbits k l : Nat) (P Q : JacPoint F) (curve : EcCurve F) : JacPoin
   let PQ := ADD P Q curve
   ((bitsMSB nbits k).zip (bitsMSB nbits l)).foldl (jacDblmulStep P Q PQ curve) jac_init
 
-/-- a straight-line program over Jacobian registers: `(1,i,j)` = ADD, `(2,i,_)` = DBL, `(3,i,_)` = jac_neg; every
-    result is appended as a new register; the value is the last register -/
-def jacSeq (curve : EcCurve F) (regs : List (JacPoint F)) (prog : List (Nat × Nat × Nat)) : Option (JacPoint F) :=
-  let out := prog.foldl (fun (acc : Option (List (JacPoint F))) op =>
-    match acc with
+/-- one instruction of a register program: `(1,i,j)` = ADD, `(2,i,_)` = DBL, `(3,i,_)` = jac_neg; the result is
+    appended as a new register; an invalid instruction gives `none` -/
+def jacStep (curve : EcCurve F) (rs : List (JacPoint F)) (op : Nat × Nat × Nat) : Option (List (JacPoint F)) :=
+  match op.1, rs[op.2.1]?, rs[op.2.2]? with
+  | 1, some a, some b => some (rs ++ [ADD a b curve])
+  | 2, some a, _ => some (rs ++ [DBL a curve])
+  | 3, some a, _ => some (rs ++ [jac_neg a])
+  | _, _, _ => none
+
+def jacRun (curve : EcCurve F) : List (JacPoint F) → List (Nat × Nat × Nat) → Option (List (JacPoint F))
+  | rs, [] => some rs
+  | rs, op :: prog => match jacStep curve rs op with
+    | some rs' => jacRun curve rs' prog
     | none => none
-    | some rs =>
-      match op.1, rs[op.2.1]?, rs[op.2.2]? with
-      | 1, some a, some b => some (rs ++ [ADD a b curve])
-      | 2, some a, _ => some (rs ++ [DBL a curve])
-      | 3, some a, _ => some (rs ++ [jac_neg a])
-      | _, _, _ => none) (some regs)
-  match out with
+
+/-- a straight-line program over Jacobian registers; the value is the last register -/
+def jacSeq (curve : EcCurve F) (regs : List (JacPoint F)) (prog : List (Nat × Nat × Nat)) : Option (JacPoint F) :=
+  match jacRun curve regs prog with
   | some rs => rs.getLast?
   | none => none
 
